@@ -20,4 +20,4 @@ one() {
   rm -rf $w
 }
 export -f one
-printf "%s\n" "$@" | xargs -P 8 -I{} bash -c 'one {}'
+printf "%s\n" "$@" | xargs -P 14 -I{} bash -c 'one {}'
